@@ -295,6 +295,8 @@ def _flat(e, lo, width):
             return [["s", ["u", e.op.symbol, canon(e.r), e.size], lo, width]]
         if e.op.symbol == "+" and e.r._is_cst:
             return [["s", ["a", canon(e.l), int(e.r.value), e.size], lo, width]]
+        if e.op.symbol == "-" and e.r._is_cst:
+            return [["s", ["a", canon(e.l), -int(e.r.value), e.size], lo, width]]
         return [["s", ["o", e.op.symbol, canon(e.l), canon(e.r), e.size], lo, width]]
     if e._is_ptr:
         return [["s", ["a", canon(e.base), int(e.disp), e.size], lo, width]]
